@@ -2,6 +2,22 @@ from core import Unit as U
 HASH = ["secp256k1_sha256_write", "secp256k1_sha256_finalize"]
 GEN = ["secp256k1_ecmult_gen", "secp256k1_ge_set_gej"]
 S2C_REPL = ["secp256k1_ecdsa_sig_sign", "nonce_function_rfc6979_impl", "secp256k1_ec_commit_seckey"] + GEN
+import os, re
+# The retry loop of secp256k1_ecdsa_sign_inner writes the caller's tagged hash object *s2c_sha only while the code hands it directly to
+# secp256k1_ec_commit_seckey (the unfixed tree; see the finding behind obligation "C15 s2c_sign.retry").  Once the loop works on a per-attempt
+# copy (hooks/C15_FIX_s2c_sha_per_attempt.diff) the object is not written and must not be listed: a listed target is havoc'd at the loop head.
+_src = open(os.path.join(os.environ.get("VERIF_REPO", "/repo"), "src", "secp256k1.c"), errors="replace").read()
+_sha_written = re.search(r"secp256k1_ec_commit_seckey\(hash_ctx, &non, &nonce_p, s2c_sha,", _src) is not None
+SIGN_LOOP_S2C = {"secp256k1_ecdsa_sign_inner": {"while (1)": {
+    "assigns": "ret, count, non, __CPROVER_object_whole(nonce32), *r, *s; recid != NULL: *recid; s2c_opening != NULL: *s2c_opening; "
+               + ("s2c_sha != NULL: *s2c_sha; " if _sha_written else "") + "verif_nonce_calls, g_nf, g_ss, g_cs, g_genl, g_sgl",
+    "invariants": "count == verif_nonce_calls"}}}
+# signer_commit: "once a nonce was accepted, k is a non-zero reduced scalar whose byte g_nk is the byte logged by the most recent RFC 6979 call"
+SIGNER_LOOP = {"secp256k1_ecdsa_anti_exfil_signer_commit": {"while (!is_nonce_valid)": {
+    "assigns": "count, is_nonce_valid, k, __CPROVER_object_whole(nonce32); verif_nonce_calls, g_nf",
+    "invariants": "count == verif_nonce_calls && (is_nonce_valid == 0 || (is_nonce_valid == 1 && "
+                  "(k.d[3] < 0xFFFFFFFFFFFFFFFFULL || (k.d[2] < 0xFFFFFFFFFFFFFFFEULL || (k.d[2] == 0xFFFFFFFFFFFFFFFEULL && (k.d[1] < 0xBAAEDCE6AF48A03BULL || (k.d[1] == 0xBAAEDCE6AF48A03BULL && k.d[0] < 0xBFD25E8CD0364141ULL))))) && "
+                  "(k.d[0] | k.d[1] | k.d[2] | k.d[3]) != 0 && (unsigned char)(k.d[3 - g_nk / 8] >> (8 * (7 - g_nk % 8))) == g_nf.out_byte))"}}}
 UNITS = [
     U("C15.ec_commit_tweak", ["C15"], "harness/C15/ec_commit.c", "h_ec_commit_tweak", defs=["UNIT_TWEAK"], replace=HASH, unwind=66,
       functions=["secp256k1_ec_commit_tweak", "secp256k1_ec_commit_pubkey_serialize_const", "secp256k1_fe_normalize", "secp256k1_fe_get_b32"],
@@ -23,13 +39,14 @@ UNITS = [
     U("C15.host_commit", ["C15"], "harness/C15/host_commit.c", "h_host_commit", replace=HASH, unwind=66,
       functions=["secp256k1_ecdsa_anti_exfil_host_commit", "secp256k1_s2c_ecdsa_data_sha256_tagged"], timeout=300, min_obl=20, replay=False),
     U("C15.s2c_sign", ["C15"], "harness/C15/s2c_sign.c", "h_s2c_sign", replace=HASH + S2C_REPL, assumed=GEN, unwind=66,
-      loops=True, closed_by="loop contract on the nonce retry loop (hooks/C01_sign_inner_loop.diff); partial correctness",
+      loop_contracts=SIGN_LOOP_S2C, closed_by="loop contract on the nonce retry loop (engine-supplied --loop-contracts-file, no /repo edit); partial correctness, termination not claimed",
       functions=["secp256k1_ecdsa_s2c_sign", "secp256k1_anti_exfil_sign", "secp256k1_ecdsa_sign_inner", "secp256k1_s2c_ecdsa_data_sha256_tagged", "secp256k1_s2c_ecdsa_point_sha256_tagged",
                  "secp256k1_ecdsa_s2c_opening_save", "secp256k1_scalar_set_b32_seckey", "secp256k1_ecdsa_signature_save"],
       timeout=1800, min_obl=100, replay=False,
       note="full argument space (every pointer NULL or object, built or unbuilt context, anti_exfil_sign entry); measured 110-150 s of cbmc on a loaded machine - kept in the quick tier because it is the central C15 wiring unit"),
     U("C15.signer_commit", ["C15"], "harness/C15/signer_commit.c", "h_signer_commit", replace=["nonce_function_rfc6979_impl"] + GEN, assumed=GEN,
-      loops=True, closed_by="loop contract on the nonce loop (hooks/C15_signer_commit_loop.diff), invariant strengthened from the harness; partial correctness",
+      extra_instrument=[["--remove-function-pointers"]],   # cbmc 6.11: a call through the const function pointer secp256k1_nonce_function_default inside the loop hides the loop from --loop-contracts-file
+      loop_contracts=SIGNER_LOOP, closed_by="loop contract on the nonce loop (engine-supplied, no /repo edit): attempt counter == number of RFC 6979 calls, and an accepted k is a non-zero reduced scalar equal to the last RFC 6979 output; partial correctness",
       functions=["secp256k1_ecdsa_anti_exfil_signer_commit", "nonce_function_rfc6979", "secp256k1_scalar_set_b32_seckey", "secp256k1_ecdsa_s2c_opening_save"],
       timeout=900, min_obl=100, replay=False),
     U("C15.opening_codec", ["C15"], "harness/C15/opening_codec.c", "h_opening_codec", replace=["secp256k1_ec_pubkey_parse", "secp256k1_ec_pubkey_serialize"],
